@@ -449,6 +449,30 @@ def gen_stream(rng, quick, avoid=1):
     return {"env": {"SOXR_USE_SIMD": str(m["simd"])}, "ops": ops, "meta": m}
 
 
+BIG_RATIOS = [(1537, 1024), (2047, 1024), (88200, 48000), (147, 80), (1999, 2000), (1024, 2047), (1000, 1999), (44100, 48000), (3, 2), (2, 3),
+              (1, 2), (7, 5), (1.7320508, 1), (48000, 44100)]
+
+
+def gen_bigblock(rng, k=99):
+    """a whole file handed over in one block (what soxr_oneshot users do): 2^20 .. 2^21+ frames in a single soxr_process call, so that
+    every product the stage functions form from the FIFO occupancy (num_in * L, occupancy * sizeof, reservations) is exercised with
+    seven-digit operands; one channel of float32 keeps the exactly-sized buffers small"""
+    ir, orr = rng.choice(BIG_RATIOS)
+    recipe = rng.choice([1, 1, 4, 4, 6, 3])
+    simd = rng.below(2)
+    n = rng.choice([1 << 20, (1 << 20) + 1, 1100000, (1 << 21) + 5, 1500000])
+    if k < 2:            # the two plans with the most phases (L = 2048, 1024) are in every run
+        (ir, orr), n = BIG_RATIOS[k], [1100000, (1 << 21) + 5][k]
+    ratio = float(ir) / float(orr)
+    olen = int(n / ratio) + 100
+    line = "create ir=%r or=%r ch=1 itype=0 otype=0 recipe=%d qflags=0 min=10 large=17 rtflags=0 ioflags=0 scale=1 mis=0 avoid=1" % (ir, orr, recipe)
+    idone = rng.below(2)
+    ops = [line, "proc 1 %d %d %d %d" % (rng.below(2), idone, n, olen if not idone else rng.choice([olen, olen // 3])), "proc 0 0 0 0 %d" % olen, "proc 0 0 0 0 1000"]
+    m = {"cls": "whole-file-block", "simd": simd, "itype": 0, "otype": 0, "ch": 1, "vr": False, "recipe": recipe, "qflags": 0, "phase": 50,
+         "ir": ir, "orr": orr, "large": 17, "min": 10, "pull": False, "deferred": False}
+    return {"env": {"SOXR_USE_SIMD": str(simd)}, "ops": ops, "meta": m}
+
+
 def sanitizer_summary(err):
     """one line describing the first sanitizer report / assertion in stderr ('' if none)."""
     m = re.search(r"ERROR: AddressSanitizer: (\S+)", err)
@@ -603,6 +627,9 @@ def sanitizer_sweep(ctx, fmin):
             ctx.notes.append("corpus file %s unreadable: %s" % (p, e))
     streams += pinned_corpus(fmin)
     npinned = len(streams)
+    nbig = 6 if ctx.quick else 120
+    for k in range(nbig):                 # first, so that the deadline below never drops them
+        streams.append(gen_bigblock(ctx.rng, k))
     n = 4000 if ctx.quick else 150000
     for _ in range(n):
         streams.append(gen_stream(ctx.rng, ctx.quick))
@@ -610,7 +637,7 @@ def sanitizer_sweep(ctx, fmin):
     deadline = t1 + (55 if ctx.quick else 1250)
 
     def work(i):
-        if time.time() > deadline and i >= npinned:
+        if time.time() > deadline and i >= npinned + nbig:
             return i, None
         return i, run_stream(exe, streams[i], timeout)
     calls = skipped_f1 = timeouts = nrun = 0
